@@ -8,7 +8,7 @@ git checkout -q -- . ; rm -f "$PKG/zz_seed_demo_test.go"
 cp "$SD"/zz_seed_demo_test.go "$PKG/zz_seed_demo_test.go" 2>/dev/null || cp "$SD"/*_test.go "$PKG/zz_seed_demo_test.go"
 echo "--- pristine (expect PASS)"; go test -vet=off -count=1 -timeout 300s -run "^$TN\$" ./$PKG/ 2>&1 | tail -4
 git apply "$SD/patch.diff" || { echo "PATCH DOES NOT APPLY"; exit 3; }
-echo "--- with change (expect FAIL)"; go test -vet=off -count=1 -timeout 300s -run "^$TN\$" ./$PKG/ 2>&1 | grep -v '^{"level' | tail -12
+echo "--- with change (expect FAIL)"; go test -vet=off -count=1 -timeout 300s -run "^$TN\$" ./$PKG/ 2>&1 | grep -a -v "^{\"level" | tail -12
 rm -f "$PKG/zz_seed_demo_test.go"
 echo "--- existing tests with change"; go build ./... && for p in "$@"; do go test -vet=off -count=1 -timeout 900s ./$p/ 2>&1 | tail -2; done
 git checkout -q -- . ; git status --short | grep -v _seed | head
